@@ -137,7 +137,7 @@ const PROBES = [
   {
     // one undocumented named type reached through differently documented references
     id: "documented-references-to-one-type",
-    text: 'type Money = { amount: number; currency: string };\ntype Tree = { v: Money; kids: Tree[] };\ntype Invoice = { /** Price of the item. */ price: Money };\ntype Refund = { /** Amount paid back. */ refund: Money; t?: Tree };\ntype Total = { total: Money };\nexport const Parsers = parse.buildParsers<{ PI: Invoice; PR: Refund; PT: Total }>();\n',
+    text: 'type Money = { amount: number; currency: string };\ntype Tree = { v: Money; kids: Tree[] };\ntype Invoice = {\n  /** Price of the item. */\n  price: Money };\ntype Refund = {\n  /** Amount paid back. */\n  refund: Money; t?: Tree };\ntype Total = { total: Money };\nexport const Parsers = parse.buildParsers<{ PI: Invoice; PR: Refund; PT: Total }>();\n',
     set: ["PI", "PR", "PT"],
     override: null,
   },
